@@ -24,12 +24,13 @@ Record closed (U : list site) (st : state) (work : list item) : Prop := {
   cl_work : forall it s, In it work -> In s (sites_of_item it) -> In s U;
   cl_ctl : forall t s, In t (ctl st) -> In s (sites_of_trigger t) -> In s U;
   cl_outs : forall s x t, In (x, t) (outs_l (mp st) s) -> In x U;
-  cl_ins : forall s x t, In (x, t) (ins_l (mp st) s) -> In x U }.
+  cl_ins : forall s x t, In (x, t) (ins_l (mp st) s) -> In x U;
+  cl_dom : forall s, lookup (mp st) s <> None -> In s U }.
 
 Lemma closed_step U st it rest st1 new :
   closed U st (it :: rest) -> step st it = (st1, new) -> closed U st1 (new ++ rest).
 Proof.
-  intros [Hw Hc Ho Hi] Hs.
+  intros [Hw Hc Ho Hi Hd] Hs.
   assert (Hrest : forall it0 s, In it0 rest -> In s (sites_of_item it0) -> In s U) by (intros; eapply Hw; [right|]; eauto).
   assert (Hact : forall s b it0 x, In it0 (activate st s b) -> In x (sites_of_item it0) -> In x U).
   { intros s b it0 x H Hx. unfold activate in H. destruct b; [|destruct H].
@@ -48,10 +49,14 @@ Proof.
         -- eapply Hi. rewrite Vi. eauto.
       * intros s0 x t. rewrite outs_store_det'. destruct (Nat.eqb s s0); [intros []|apply Ho].
       * intros s0 x t. rewrite ins_store_det'. destruct (Nat.eqb s s0); [intros []|apply Hi].
+      * intros s0. rewrite lookup_store. destruct (Nat.eqb s s0) eqn:E; auto. apply Nat.eqb_eq in E; subst. intros _.
+        eapply Hw; [left; reflexivity|cbn; auto].
     + inversion Hs; subst st1 new; clear Hs. constructor; cbn; auto.
       * intros it0 x H Hx. apply in_app_or in H. destruct H as [H|H]; eauto.
       * intros s0 x t. rewrite outs_store_det'. destruct (Nat.eqb s s0); [intros []|apply Ho].
       * intros s0 x t. rewrite ins_store_det'. destruct (Nat.eqb s s0); [intros []|apply Hi].
+      * intros s0. rewrite lookup_store. destruct (Nat.eqb s s0) eqn:E; auto. apply Nat.eqb_eq in E; subst. intros _.
+        eapply Hw; [left; reflexivity|cbn; auto].
   - assert (Ht : forall x, In x (sites_of_trigger t) -> In x U) by (intros x Hx; eapply Hw; [left; reflexivity|auto]).
     unfold sites_of_trigger in Ht.
     destruct (t_prod t) as [| |p] eqn:Ep, (t_cons t) as [| |c] eqn:Ec; inversion Hs; subst st1 new; clear Hs;
@@ -66,6 +71,7 @@ Proof.
     + intros it0 x [<-|H] Hx; eauto. destruct Hx as [<-|[]]; auto.
     + intros s x t0 H. apply store_impl_outs in H; auto. destruct H as [H|[_ [-> _]]]; eauto.
     + intros s x t0 H. apply store_impl_ins in H; auto. destruct H as [H|[_ [-> _]]]; eauto.
+    + intros s H. apply store_impl_dom in H. destruct H as [->|[->|H]]; auto.
 Qed.
 
 Lemma Run_closed U st work st' : Run st work st' -> closed U st work -> closed U st' [].
@@ -202,7 +208,7 @@ Lemma closed_new_work U st st' w :
   (forall it s, In it w -> In s (sites_of_item it) -> In s U) ->
   (forall t s, In t (ctl st') -> In s (sites_of_trigger t) -> In s U) ->
   closed U st' w.
-Proof. intros [_ _ Ho Hi] E Hw Hc. constructor; auto; rewrite <- E; auto. Qed.
+Proof. intros [_ _ Ho Hi Hd] E Hw Hc. constructor; auto; rewrite <- E; auto. Qed.
 
 Theorem engine_terminates facts annots ts : wf_triggers ts -> exists st, pkg_run facts annots ts st.
 Proof.
